@@ -91,6 +91,7 @@ type actOp struct {
 	KeepHistory   bool     `json:"keepHistory"`
 	MaxHistory    int      `json:"maxHistory"`
 	Version       int      `json:"version"`
+	HookCreate    bool     `json:"hookCreate"` // a failing hook fails at its creation (rejected by the API server) instead of never becoming ready
 	F             opFaults `json:"f"`
 	Nested        opFaults `json:"nested"`
 }
@@ -165,6 +166,7 @@ func genActOp(r *Rng, ledger []modelRec, nextPayload int, faultLevel int) actOp 
 		if op.Kind == "install" {
 			op.Nested.Wait = "" // the nested operation of an atomic install is an uninstall
 		}
+		op.HookCreate = op.Payload%3 == 0 // no extra random draw: the streams of earlier runs stay as they were
 	}
 	return op
 }
@@ -191,19 +193,28 @@ func runActOp(w *simWorld, op actOp) (err error, panicked string) {
 	w.reachable = op.F.Pre
 	w.wplan.mainWait, w.wplan.nestedWait, w.wplan.resources = op.F.Wait, op.Nested.Wait, op.F.Resources
 	evs := map[string][2]string{"install": {"hook-pre-install", "hook-post-install"}, "upgrade": {"hook-pre-upgrade", "hook-post-upgrade"}, "rollback": {"hook-pre-rollback", "hook-post-rollback"}, "uninstall": {"hook-pre-delete", "hook-post-delete"}}
+	hookFault := func(name, d string) {
+		if d == "fail" && op.HookCreate {
+			w.api.mu.Lock()
+			w.api.reject["POST namespaces/default/configmaps/"+name] = true
+			w.api.mu.Unlock()
+			return
+		}
+		w.wplan.hookFail[name] = d
+	}
 	if op.F.PreHook != "" {
-		w.wplan.hookFail[evs[op.Kind][0]] = op.F.PreHook
+		hookFault(evs[op.Kind][0], op.F.PreHook)
 	}
 	if op.F.PostHook != "" {
-		w.wplan.hookFail[evs[op.Kind][1]] = op.F.PostHook
+		hookFault(evs[op.Kind][1], op.F.PostHook)
 	}
 	nestedKind := map[string]string{"install": "uninstall", "upgrade": "rollback"}[op.Kind]
 	if nestedKind != "" {
 		if op.Nested.PreHook != "" {
-			w.wplan.hookFail[evs[nestedKind][0]] = op.Nested.PreHook
+			hookFault(evs[nestedKind][0], op.Nested.PreHook)
 		}
 		if op.Nested.PostHook != "" {
-			w.wplan.hookFail[evs[nestedKind][1]] = op.Nested.PostHook
+			hookFault(evs[nestedKind][1], op.Nested.PostHook)
 		}
 	}
 	w.api.mu.Lock()
